@@ -678,7 +678,9 @@ func c14GenScalar(r *vf.Rand) []byte {
 }
 
 func c14GenPoint(r *vf.Rand, sp map[string][]byte, names []string) ([]byte, string) {
-	switch r.Intn(6) {
+	switch r.Intn(7) {
+	case 6:
+		return c14RandStructuredU(r, 56), "u-structured"
 	case 0:
 		n := names[r.Intn(len(names))]
 		return sp[n], n
@@ -699,6 +701,78 @@ func c14GenPoint(r *vf.Rand, sp map[string][]byte, names []string) ([]byte, stri
 		return r.Bytes(56), "u=random"
 	}
 }
+
+// c14StructuredU enumerates u-coordinates of n bytes of the form "small constant + one structured high
+// part": c + 2^k for every bit k, c + (b << 8j) for every byte position j and b in {01, 7f, 80, ff},
+// and (independent of c) the top byte alone, 2^32 ± d, 2^64 ± d, 2^(8j) ± 1.  Such values sit on the
+// boundaries of any special-casing of "small" or "well-known" points (fast paths, base-point shortcuts,
+// masks applied to one byte, narrowing conversions).
+func c14StructuredU(n int, consts []int) [][]byte {
+	seen := map[string]bool{}
+	var out [][]byte
+	add := func(v *big.Int) {
+		if v.Sign() < 0 || v.BitLen() > 8*n {
+			return
+		}
+		b := leBytes(v, n)
+		if !seen[string(b)] {
+			seen[string(b)] = true
+			out = append(out, b)
+		}
+	}
+	one := big.NewInt(1)
+	for _, c := range consts {
+		cv := big.NewInt(int64(c))
+		add(cv)
+		for k := 0; k < 8*n; k++ {
+			add(new(big.Int).Add(cv, new(big.Int).Lsh(one, uint(k))))
+		}
+		for j := 1; j < n; j++ {
+			for _, b := range []int64{0x01, 0x7f, 0x80, 0xff} {
+				add(new(big.Int).Add(cv, new(big.Int).Lsh(big.NewInt(b), uint(8*j))))
+			}
+		}
+	}
+	for b := int64(1); b < 256; b++ { // only the top byte set: every value
+		add(new(big.Int).Lsh(big.NewInt(b), uint(8*(n-1))))
+	}
+	for _, e := range []uint{32, 64} {
+		for d := int64(-3); d <= 3; d++ {
+			add(new(big.Int).Add(new(big.Int).Lsh(one, e), big.NewInt(d)))
+		}
+	}
+	for j := 1; j < n; j++ {
+		add(new(big.Int).Add(new(big.Int).Lsh(one, uint(8*j)), one))
+		add(new(big.Int).Sub(new(big.Int).Lsh(one, uint(8*j)), one))
+	}
+	return out
+}
+
+// c14RandStructuredU draws one value of the same family (any constant 0..16, random high part).
+func c14RandStructuredU(r *vf.Rand, n int) []byte {
+	v := big.NewInt(int64(r.Intn(17)))
+	switch r.Intn(4) {
+	case 0:
+		v.Add(v, new(big.Int).Lsh(big.NewInt(1), uint(r.Intn(8*n))))
+	case 1:
+		v.Add(v, new(big.Int).Lsh(big.NewInt(int64(1+r.Intn(255))), uint(8*(1+r.Intn(n-1)))))
+	case 2:
+		e := uint([]int{32, 64, 8 * (1 + r.Intn(n-1))}[r.Intn(3)])
+		v = new(big.Int).Add(new(big.Int).Lsh(big.NewInt(1), e), big.NewInt(int64(r.Intn(33)-16)))
+	default: // two structured parts
+		v.Add(v, new(big.Int).Lsh(big.NewInt(int64(1+r.Intn(255))), uint(8*(1+r.Intn(n-1)))))
+		v.Add(v, new(big.Int).Lsh(big.NewInt(1), uint(r.Intn(8*n))))
+	}
+	if v.Sign() < 0 || v.BitLen() > 8*n {
+		v = big.NewInt(9)
+	}
+	return leBytes(v, n)
+}
+
+// the 8 seeds that clamp to 4·l (l = order of the prime-order subgroup of curve448): X448(seed, 5) is the
+// all-zero value, X448 reports the low-order error and NewKeyFromSeed panics (C14.newKeyFromSeed_panics_iff)
+const c14Seed4l = "cc1361ad4a0ae38d543d1637ca09b38540da58bb266d3b11a78f28f3fd" +
+	"ffffffffffffffffffffffffffffffffffffffffffffffffffffff"
 
 // c14Shaped builds a case whose two arguments share memory: shape "same" (one slice passed twice) or
 // "overlap" (point window starts off bytes after the scalar window inside one buffer).
@@ -913,6 +987,49 @@ func runC14(c *vf.Ctx) {
 		fixed = append(fixed, c14Case{Kind: "newkey", Scalar: c14GenScalar(seedR), Model: true, Note: "newkey"})
 		fixed = append(fixed, c14Case{Kind: "genkey", Scalar: seedR.Bytes(56 + seedR.Intn(8)), Model: i < 3, Note: "genkey"})
 	}
+	// the exceptional branch of the key theorems: the 8 seeds with clamp(seed) = 4·l
+	{
+		base := c14Hex(c14Seed4l)
+		if _, zero := refX448(base, basepoint448); !zero {
+			c.Fail(vf.Violation{Kind: "correspondence", Class: "c14-seed-4l-ref", What: "the math/big reference does not map the 4·l seed to the all-zero value (the constant in the harness is wrong)",
+				Case: c14Case{Kind: "x448", Scalar: base, Point: basepoint448}})
+		}
+		for lo := 0; lo < 4; lo++ {
+			for hi := 0; hi < 2; hi++ {
+				sd := append([]byte{}, base...)
+				sd[0] = sd[0]&0xfc | byte(lo)
+				sd[55] = sd[55]&0x7f | byte(hi<<7)
+				m := lo == 0 || (lo == 3 && hi == 0)
+				fixed = append(fixed, c14Case{Kind: "newkey", Scalar: sd, Model: true, Note: "seed-4l"})
+				fixed = append(fixed, c14Case{Kind: "x448", Scalar: sd, Point: basepoint448, Model: m, Spec: true, Note: "seed-4l"})
+				fixed = append(fixed, c14Case{Kind: "genkey", Scalar: sd, Model: lo == 1 && hi == 1, Note: "seed-4l"})
+			}
+		}
+		// neighbours that must NOT hit the exceptional branch
+		for _, i := range []int{0, 1, 28, 55} {
+			sd := append([]byte{}, base...)
+			sd[i] ^= 4
+			fixed = append(fixed, c14Case{Kind: "newkey", Scalar: sd, Note: "seed-4l-neighbour"})
+		}
+	}
+	// structured u: small constant + one-hot bit / byte high part, top byte only, 2^32±d, 2^64±d, 2^(8j)±1.
+	// X25519 always exhaustively (cheap); X448 for the constants {0,1,5,9} in quick, all of 0..16 in thorough
+	// and in search mode.
+	{
+		all := []int{0, 1, 2, 3, 4, 5, 6, 7, 8, 9, 10, 11, 12, 13, 14, 15, 16}
+		c448 := all
+		if c.Quick() && !SearchMode() {
+			c448 = []int{0, 1, 5, 9}
+		}
+		us := c14StructuredU(56, c448)
+		for i, u := range us {
+			fixed = append(fixed, c14Case{Kind: "x448", Scalar: c14GenScalar(seedR), Point: u, Spec: i%4 == 0, Model: i%(len(us)/6+1) == 3, Note: "u-structured"})
+		}
+		for _, u := range c14StructuredU(32, all) {
+			fixed = append(fixed, c14Case{Kind: "x25519", Scalar: seedR.Bytes(32), Point: u, Note: "x25519-u-structured"})
+		}
+		c.Set("structured_u_x448", len(us))
+	}
 	// x25519: low-order points, lengths
 	for _, h := range c14LowOrder25519 {
 		fixed = append(fixed, c14Case{Kind: "x25519", Scalar: seedR.Bytes(32), Point: c14Hex(h), Note: "x25519-low-order"})
@@ -1007,6 +1124,8 @@ func runC14(c *vf.Ctx) {
 					}
 				case 3:
 					sc = make([]byte, 32)
+				case 4, 5:
+					pt = c14RandStructuredU(r, 32)
 				}
 				cs = c14Case{Kind: "x25519", Scalar: sc, Point: pt, Note: "x25519"}
 			default:
